@@ -42,7 +42,7 @@ fn base_ops(p: &mut Prng, pfx: &str, msg: &[u8], order: &str, comp: bool, encryp
     ops.push(set(&s("msg"), msg));
     let via = if p.chance(1, 5) { "struct" } else { "new" };
     // struct delivery needs the uncompressed wire form; the op falls back to `new` otherwise
-    ops.push(enc_op(pfx, encryptor, order, comp, via, rng_json(&uniform_script(p, 1))));
+    ops.push(enc_op(pfx, encryptor, order, comp, via, rng_json(&classy_script(p, &n))));
     ops
 }
 
